@@ -1,6 +1,9 @@
 import M3d.Lemmas.Transform
 import M3d.Lemmas.SmartSqueeze
+import M3d.Lemmas.SmartSqueezeSlope
 import M3d.Lemmas.Transform2
+import M3d.Lemmas.TransformNest
+import M3d.Lemmas.TransformNest2
 import Mathlib.Algebra.Order.Field.Rat
 /-!
 # C05 — transforms invert, and transformed objects are images of the original
@@ -87,10 +90,8 @@ theorem inverse_valid (t : Xf K) (h : t.Valid) : t.inverse.Valid := by
   | jnil => trivial
   | jcons t r iht ihr => exact Xf.valid_snoc _ _ (ihr h.2) (iht h.1)
 
-/-- The slice `JoinedTransform{t₁,…,tₙ}`. -/
-def ofList : List (Xf K) → Xf K
-  | [] => .jnil
-  | t :: ts => .jcons t (ofList ts)
+/-- The slice `JoinedTransform{t₁,…,tₙ}` is `Xf.ofList [t₁,…,tₙ]` (`M3d/Model/TransformNest.lean`). -/
+abbrev ofList (ts : List (Xf K)) : Xf K := Xf.ofList ts
 
 /-- **`JoinedTransform.Inverse()` is the reversed list of the inverses**, and `Apply` composes left to right. -/
 theorem joined_inverse_reversed (ts : List (Xf K)) :
@@ -100,15 +101,15 @@ theorem joined_inverse_reversed (ts : List (Xf K)) :
     intro l t
     induction l with
     | nil => rfl
-    | cons a l ih => simp only [ofList, Xf.snoc, ih, List.cons_append]
+    | cons a l ih => simp only [ofList, Xf.ofList, Xf.snoc, ih, List.cons_append]
   constructor
   · induction ts with
     | nil => rfl
     | cons t ts ih =>
-        simp only [ofList, Xf.inverse, ih, hsnoc, List.reverse_cons, List.map_append, List.map_cons, List.map_nil]
+        simp only [ofList, Xf.ofList, Xf.inverse, ih, hsnoc, List.reverse_cons, List.map_append, List.map_cons, List.map_nil]
   · induction ts with
     | nil => intro p; rfl
-    | cons t ts ih => intro p; simp only [ofList, Xf.apply, ih, List.foldl_cons]
+    | cons t ts ih => intro p; simp only [ofList, Xf.ofList, Xf.apply, ih, List.foldl_cons]
 
 example : (Xf.jcons (.scale (-2 : ℚ)) (.jcons (.squeeze 2 0 4 (1 / 2)) (.jcons (.vecScale ⟨-1, 2, 4⟩) .jnil))).Valid := by
   norm_num [Xf.Valid]
@@ -369,6 +370,120 @@ theorem transform_collider_bounds (t : Xf K) (h : t.DistValid) (c : Collider K) 
     Box (tcBounds t c).1 (tcBounds t c).2 (t.apply p) :=
   Xf.applyBounds_encloses t (Xf.valid_boundsOK t (Xf.distValid_valid t h)) _ _ _ hp
 
+/-! ## Nested wrappers: `TransformX(t₂, TransformX(t₁, x)) = TransformX(JoinedTransform{t₁, t₂}, x)`
+
+A wrapped object is again an object of the same interface, so wrappers nest (a part positioned in a sub-assembly, the
+sub-assembly positioned in the scene).  `nestSolid [t₁,…,tₙ] s` is `TransformSolid(tₙ, … TransformSolid(t₁, s))`
+(`M3d/Model/TransformNest.lean`), `ofList [t₁,…,tₙ]` the slice `JoinedTransform{t₁,…,tₙ}` (applies `t₁` first).  The
+theorems say that the nested object **is** the object wrapped once by the join *in application order* — equal as
+records of functions, i.e. same bounds and same answer to every query — so every conjugacy theorem above applies to a
+nested instance with `t := ofList [t₁,…,tₙ]`.  (The opposite order, `JoinedTransform{t₂, t₁}`, is a different map as
+soon as the members do not commute: see the `example` below.) -/
+
+/-- `transformCollider` (the wrapper as a `Collider` value) is nothing but `tcBounds` / `tcRayCollisions` / `tcFirst` /
+`tcSphere` of the single-wrap theorems above, packaged. -/
+theorem transform_collider_value (sqrtF : K → K) (t : Xf K) (c : Collider K) (r : Ray K) (cb : Bool) (p : V3 K) (d : K) :
+    ((transformCollider sqrtF t c).lo, (transformCollider sqrtF t c).hi) = tcBounds t c ∧
+      colliderRayCollisions (transformCollider sqrtF t c) r cb = tcRayCollisions sqrtF t c r cb ∧
+      (transformCollider sqrtF t c).first r = tcFirst sqrtF t c r ∧
+      (transformCollider sqrtF t c).sphere p d = tcSphere t c p d := by
+  refine ⟨rfl, ?_, rfl, rfl⟩
+  cases cb <;> rfl
+
+/-- **Nested `TransformSolid`** (any depth, any invertible members — matrices, per-axis scales and squeezes included):
+`TransformSolid(tₙ, … TransformSolid(t₁, s)) = TransformSolid(JoinedTransform{t₁,…,tₙ}, s)` for a solid that is inside
+its own bounds.  (The inner wrappers' own bounds tests never reject a point the outer one accepts.) -/
+theorem nested_solid (ts : List (Xf K)) (hv : ∀ t ∈ ts, t.Valid) (s : Solid K)
+    (hs : ∀ x, s.contains x = true → Box s.lo s.hi x) :
+    nestSolid ts s = transformSolid (ofList ts) s := nestSolid_eq ts hv s hs
+
+/-- … hence membership in the nested solid at the image of `q` under `t₁` then … then `tₙ` is membership of `q`. -/
+theorem nested_solid_conj (ts : List (Xf K)) (hv : ∀ t ∈ ts, t.Valid) (s : Solid K)
+    (hs : ∀ x, s.contains x = true → Box s.lo s.hi x) (q : V3 K) :
+    (nestSolid ts s).contains (ts.foldl (fun c t => t.apply c) q) = s.contains q := by
+  rw [nested_solid ts hv s hs, ← (joined_inverse_reversed ts).2 q]
+  exact transform_solid_conj _ (Xf.valid_ofList ts hv) s hs q
+
+/-- **Nested `TransformSDF` and `TransformMetaball`**: equal to the single wrapper of the join, for all transforms of the
+model, no side condition. -/
+theorem nested_sdf_metaball (ts : List (Xf K)) (s : SDF K) (m : Metaball K) :
+    nestSDF ts s = transformSDF (ofList ts) s ∧ nestMetaball ts m = transformMetaball (ofList ts) m :=
+  ⟨nestSDF_eq ts s, nestMetaball_eq ts m⟩
+
+/-- **Nested `TransformCollider`** (depth ≥ 1): for `DistTransform` members (translations, non-zero uniform scales of
+either sign, orthogonal matrices, joins of those), a wrapped collider whose reported normals have a perfect-square squared
+length (unit normals: 1), and `sqrtF` the exact non-negative root on perfect squares,
+`TransformCollider(tₙ, … TransformCollider(t₁, c)) = TransformCollider(JoinedTransform{t₁,…,tₙ}, c)`: same bounds, same
+ray handed to `c`, same count, same parameters and `Extra`, same (once-normalised) normals, same first collision, same
+sphere query. -/
+theorem nested_collider (sqrtF : K → K) (hsq : ∀ q, 0 ≤ q → sqrtF (q * q) = q) (t₁ : Xf K) (ts : List (Xf K))
+    (hd : ∀ t ∈ t₁ :: ts, t.DistValid) (c : Collider K) (hc : c.NiceNormals) :
+    nestCollider sqrtF (t₁ :: ts) c = transformCollider sqrtF (ofList (t₁ :: ts)) c :=
+  nestCollider_eq sqrtF hsq t₁ ts hd c hc
+
+/-- **Hits of the nested collider are the images of the inner hits**: the ray handed to the innermost collider is
+`(T⁻¹o, L⁻¹d)` for the composite `T = tₙ ∘ … ∘ t₁`, the point with parameter `k` on it is mapped by `T` to the point with the
+same `k` on the outer ray, and the reported collisions are the inner ones with unchanged parameter. -/
+theorem nested_collider_conj (sqrtF : K → K) (hsq : ∀ q, 0 ≤ q → sqrtF (q * q) = q) (t₁ : Xf K) (ts : List (Xf K))
+    (hd : ∀ t ∈ t₁ :: ts, t.DistValid) (c : Collider K) (hc : c.NiceNormals) (o d : V3 K) (k : K) :
+    let T := ofList (t₁ :: ts)
+    let ir := innerRay T.inverse ⟨o, d⟩
+    (nestCollider sqrtF (t₁ :: ts) c).count ⟨o, d⟩ = c.count ir ∧
+      ((nestCollider sqrtF (t₁ :: ts) c).hits ⟨o, d⟩).map Hit.scale = (c.hits ir).map Hit.scale ∧
+      T.apply (ir.origin.add (ir.dir.scale k)) = o.add (d.scale k) ∧
+      ∀ p, T.apply p = (t₁ :: ts).foldl (fun c t => t.apply c) p := by
+  have hT := Xf.distValid_ofList _ hd
+  intro T ir
+  rw [nested_collider sqrtF hsq t₁ ts hd c hc]
+  refine ⟨rfl, ?_, ?_, (joined_inverse_reversed (t₁ :: ts)).2⟩
+  · simp only [transformCollider, List.map_map]
+    apply List.map_congr_left
+    intro h _
+    rfl
+  · exact (transform_collider_conj T (Xf.distValid_valid _ hT) (Xf.distValid_affine _ hT) o d k).2.2
+
+/-- non-vacuity: over every ordered field there is a `sqrtF` that is the exact non-negative root on perfect squares
+(at ℚ: the driver's `sqrtQ`; at ℝ: `Real.sqrt`). -/
+example : ∃ sqrtF : K → K, ∀ q, 0 ≤ q → sqrtF (q * q) = q := by
+  classical
+  refine ⟨fun x => if h : ∃ q, 0 ≤ q ∧ q * q = x then Classical.choose h else 0, fun q hq => ?_⟩
+  have h : ∃ q', 0 ≤ q' ∧ q' * q' = q * q := ⟨q, hq, rfl⟩
+  show (if h : ∃ q', 0 ≤ q' ∧ q' * q' = q * q then Classical.choose h else 0) = q
+  rw [dif_pos h]
+  obtain ⟨h1, h2⟩ := Classical.choose_spec h
+  exact (mul_self_inj h1 hq).mp h2
+
+/-- non-vacuity: a collider reporting unit normals has `NiceNormals`. -/
+example : (⟨⟨0, 0, 0⟩, ⟨1, 1, 1⟩, fun _ => [⟨1, ⟨0, 0, 1⟩, 0⟩], fun _ => 1, fun _ => (⟨1, ⟨0, 0, 1⟩, 0⟩, true),
+    fun _ _ => false⟩ : Collider ℚ).NiceNormals := by
+  refine ⟨fun r h hh => ⟨1, by norm_num, ?_⟩, fun r => ⟨1, by norm_num, by norm_num [V3.normSq]⟩⟩
+  simp only [List.mem_singleton] at hh
+  subst hh
+  norm_num [V3.normSq]
+
+/-- Why the order matters (the merged fast path `JoinedTransform{t, tc.t}` is wrong): translate by (5,0,0) *then* scale by 2
+maps (1,0,0) to (12,0,0); the members in the opposite order map it to (7,0,0). -/
+example : (ofList [Xf.translate (⟨5, 0, 0⟩ : V3 ℚ), Xf.scale 2]).apply ⟨1, 0, 0⟩ = ⟨12, 0, 0⟩ ∧
+    (ofList [Xf.scale 2, Xf.translate (⟨5, 0, 0⟩ : V3 ℚ)]).apply ⟨1, 0, 0⟩ = ⟨7, 0, 0⟩ := by
+  constructor <;> ext <;> norm_num [Xf.ofList, Xf.apply, V3.add, V3.scale]
+
+/-- 2-D **nested `TransformSolid` / `TransformSDF` / `TransformMetaball`** = the single wrapper of the 2-D join. -/
+theorem nested_solid_sdf_metaball_2d (ts : List (Xf2 K)) (s : Solid2 K) (f : SDF2 K) (m : Metaball2 K) :
+    ((∀ t ∈ ts, t.Valid) → (∀ x, s.contains x = true → Box2 s.lo s.hi x) →
+        nestSolid2 ts s = transformSolid2 (Xf2.ofList ts) s) ∧
+      nestSDF2 ts f = transformSDF2 (Xf2.ofList ts) f ∧ nestMetaball2 ts m = transformMetaball2 (Xf2.ofList ts) m :=
+  ⟨fun hv hs => nestSolid2_eq ts hv s hs, nestSDF2_eq ts f, nestMetaball2_eq ts m⟩
+
+/-- 2-D **nested `TransformCollider`** = the single wrapper of the 2-D join (same hypotheses as in 3-D). -/
+theorem nested_collider_2d (sqrtF : K → K) (hsq : ∀ q, 0 ≤ q → sqrtF (q * q) = q) (t₁ : Xf2 K) (ts : List (Xf2 K))
+    (hd : ∀ t ∈ t₁ :: ts, t.DistValid) (c : Collider2 K) (hc : c.NiceNormals) :
+    nestCollider2 sqrtF (t₁ :: ts) c = transformCollider2 sqrtF (Xf2.ofList (t₁ :: ts)) c :=
+  nestCollider2_eq sqrtF hsq t₁ ts hd c hc
+
+example : (Xf2.ofList [Xf2.translate (⟨5, 0⟩ : V2 ℚ), Xf2.scale 2]).apply ⟨1, 0⟩ = ⟨12, 0⟩ ∧
+    (Xf2.ofList [Xf2.scale 2, Xf2.translate (⟨5, 0⟩ : V2 ℚ)]).apply ⟨1, 0⟩ = ⟨7, 0⟩ := by
+  constructor <;> ext <;> norm_num [Xf2.ofList, Xf2.apply, V2.add, V2.scale]
+
 /-! ## toolbox3d.AxisPinch (as far as it is algebraic: `math.Pow(·, Power)` is the parameter `powF`) -/
 
 /-- **`AxisPinch.Inverse().Apply(AxisPinch.Apply(c)) = c`** whenever the two power functions (`t ↦ t^p`, `t ↦ t^(1/p)`)
@@ -386,6 +501,20 @@ theorem pinch_bounds_encloses (powF : K → K) (hp : PowLike powF)
   have hg := hb.get_axis a.axis
   simp only [Pinch.applyBounds, Pinch.apply_eq]
   exact hb.set_axis a.axis (pinch1_mono powF hp hm _ _ h hg.1) (pinch1_mono powF hp hm _ _ h hg.2)
+
+/-- **`TransformSolid(pinch, s).Contains(pinch.Apply(q)) = s.Contains(q)`** (the body of `TransformSolid` with the pinch and
+its `Inverse()` — power function `powG` — in place of `t`, `t.Inverse()`): for a solid inside its own bounds. -/
+theorem pinch_solid_conj (powF powG : K → K) (hp : PowLike powF) (hg : ∀ u, 0 ≤ u → u ≤ 1 → powG (powF u) = u)
+    (hm : ∀ u w, 0 ≤ u → u ≤ w → w ≤ 1 → powF u ≤ powF w) (a : Pinch K) (h : a.lo < a.hi) (s : Solid K)
+    (hs : ∀ x, s.contains x = true → Box s.lo s.hi x) (q : V3 K) :
+    (inBounds (a.apply powF q) (a.applyBounds powF s.lo s.hi).1 (a.applyBounds powF s.lo s.hi).2 &&
+      s.contains (a.apply powG (a.apply powF q))) = s.contains q := by
+  rw [pinch_inverse powF powG hp hg a h q]
+  cases hc : s.contains q with
+  | false => simp
+  | true =>
+      have := (inBounds_iff _ _ _).mpr (pinch_bounds_encloses powF hp hm a h s.lo s.hi q (hs q hc))
+      simp [this]
 
 /-- **General `Power`**: if `powF` is monotone on `x ≥ 0`, `powF 0 = 0`, `powF 1 = 1`, and `powG` undoes it on
 `x ≥ 0` (`pow(pow(x,p),1/p) = x`), then `powF` is `PowLike`, hence the pinch inverts (`pinch_inverse`) and its bounds
@@ -450,6 +579,82 @@ theorem smart_squeeze_inverse (axis : Nat) (ratio : K) (hr : 0 < ratio) (ranges 
     squeezeLoop_valid ranges hi n lo [] (by simp) r (List.mem_reverse.mp hr')
   have hval := smartXf_valid axis ratio hr _ hv
   exact ⟨hval, Xf.inverse_apply _ hval, Xf.apply_inverse _ hval, smartXf_monotone axis ratio hr _ hv⟩
+
+/-- **What the breakpoint loop produces** (`ranges` = the unsqueezable ranges followed by the pinch ranges, arbitrary:
+overlapping, unsorted, inverted, sticking out of the bounds): an ascending chain of proper intervals inside `[min, max]`
+(each starts where or after the previous one ends), none of which contains a point of any range — unsqueezable material is
+never squeezed — and, with the fuel the library's `for value < max` loop needs at most (`smart_squeeze_terminates`),
+every point of `[min, max)` that lies in no range is inside one of them — everything squeezable is squeezed. -/
+theorem smart_squeeze_pieces (ranges : List (K × K)) (lo hi : K) (n : Nat) :
+    let l := squeezeLoop ranges hi n lo []
+    Asc lo l ∧ (∀ p ∈ l, p.1 < p.2 ∧ lo ≤ p.1 ∧ p.2 ≤ hi) ∧
+      (∀ p ∈ l, ∀ x, p.1 ≤ x → x < p.2 → ∀ r ∈ ranges, ¬ (r.1 ≤ x ∧ x < r.2)) ∧
+      (2 * ranges.length + 2 ≤ n → ∀ x, lo ≤ x → x < hi → (∀ r ∈ ranges, ¬ (r.1 ≤ x ∧ x < r.2)) →
+        ∃ p ∈ l, p.1 ≤ x ∧ x < p.2) := by
+  intro l
+  have ok : PiecesOK ranges lo hi l :=
+    squeezeLoop_ok ranges lo hi n lo [] (le_refl _) ⟨trivial, by simp, by simp⟩ (by simp)
+  refine ⟨ok.asc, fun p hp => ⟨(ok.proper p hp).1, (ok.asc.mem_bounds p hp).1, (ok.proper p hp).2⟩, ok.avoids, ?_⟩
+  intro hn x hx1 hx2 hx
+  have hfm : ∀ l : List (K × K), (l.flatMap fun r => [r.1, r.2]).length = 2 * l.length := by
+    intro l
+    induction l with
+    | nil => rfl
+    | cons r rest ih => simp only [List.flatMap_cons, List.length_append, List.length_cons, List.length_nil, ih]; omega
+  have hlen : (breakpoints ranges hi).length = 2 * ranges.length + 1 := by
+    simp only [breakpoints, List.length_cons, hfm]
+  have := List.countP_le_length (p := fun y => decide (lo < y)) (l := breakpoints ranges hi)
+  exact squeezeLoop_covers ranges hi n lo [] (by omega) x hx1 hx2 hx
+
+/-- **`SmartSqueeze.Transform` (no pinches) is the documented piecewise-linear map of the axis coordinate**: it moves only
+the axis coordinate, by `F(v) = v − (1 − ratio)·(total length of the squeezed intervals below v)`; so `F` has slope `ratio`
+on every squeezed interval and slope 1 between them (in particular below `min` and above `max`).  Any `ratio ≥ 0`. -/
+theorem smart_squeeze_slope (axis : Nat) (ratio : K) (hr : 0 ≤ ratio) (ranges : List (K × K)) (lo hi : K) (n : Nat) :
+    let l := squeezeLoop ranges hi n lo []
+    let t := smartXf axis ratio l.reverse
+    ∃ F : K → K, (∀ c : V3 K, t.apply c = c.set axis (F (c.get axis))) ∧
+      (∀ v, F v = v - (1 - ratio) * sumClamp l v) ∧
+      (∀ p ∈ l, ∀ v w, p.1 ≤ v → v ≤ w → w ≤ p.2 → F w - F v = ratio * (w - v)) ∧
+      (∀ v w, v ≤ w → (∀ p ∈ l, p.2 ≤ v ∨ w ≤ p.1) → F w - F v = w - v) := by
+  intro l t
+  have hasc : Asc lo l := (smart_squeeze_pieces ranges lo hi n).1
+  refine ⟨smartFn ratio l, smartXf_reverse_apply axis ratio l, smartFn_formula ratio hr lo l hasc, ?_, ?_⟩
+  · intro p hp v w hv hvw hw
+    rw [smartFn_formula ratio hr lo l hasc, smartFn_formula ratio hr lo l hasc,
+      sumClamp_diff_inside lo l hasc p hp v w hv hvw hw]
+    ring
+  · intro v w hvw h
+    rw [smartFn_formula ratio hr lo l hasc, smartFn_formula ratio hr lo l hasc,
+      sumClamp_diff_outside l v w hvw (fun p hp => ⟨(hasc.mem_bounds p hp).2, h p hp⟩)]
+    ring
+
+/-- **Unsqueezable material keeps its size**: on a segment `[v, w]` inside one unsqueezable (or pinch) range, and on any
+segment below `min` or above `max`, the transform is a rigid shift (`F w − F v = w − v`). -/
+theorem smart_squeeze_rigid (ratio : K) (ranges : List (K × K)) (lo hi : K) (n : Nat)
+    (F : K → K) (hF : ∀ v, F v = v - (1 - ratio) * sumClamp (squeezeLoop ranges hi n lo []) v) (v w : K) (hvw : v ≤ w)
+    (h : (∃ r ∈ ranges, r.1 ≤ v ∧ w ≤ r.2) ∨ w ≤ lo ∨ hi ≤ v) : F w - F v = w - v := by
+  rcases hvw.lt_or_eq with hlt | heq
+  swap
+  · subst heq; ring
+  obtain ⟨hasc, hin, hav, _⟩ := smart_squeeze_pieces ranges lo hi n
+  have key : ∀ p ∈ squeezeLoop ranges hi n lo [], p.2 ≤ v ∨ w ≤ p.1 := by
+    intro p hp
+    rcases h with ⟨r, hr', h1, h2⟩ | h | h
+    · by_contra hc
+      rw [not_or, not_le, not_le] at hc
+      obtain ⟨c1, c2⟩ := hc
+      -- the point `x = max v p.1` lies in the squeeze and in the range
+      have hx1 : p.1 ≤ max v p.1 := le_max_right _ _
+      have hx2 : max v p.1 < p.2 := max_lt c1 (hin p hp).1
+      have hx3 : max v p.1 < w := max_lt hlt c2
+      exact hav p hp (max v p.1) hx1 hx2 r hr' ⟨le_trans h1 (le_max_left _ _), lt_of_lt_of_le hx3 h2⟩
+    · exact Or.inr (le_trans h (hin p hp).2.1)
+    · exact Or.inl (le_trans (hin p hp).2.2 h)
+  rw [hF, hF, sumClamp_diff_outside _ v w hvw (fun p hp => ⟨(hasc.mem_bounds p hp).2, key p hp⟩)]
+  ring
+
+/-- non-vacuity: bounds `[0, 4]`, unsqueezable `[1, 2)`: the loop squeezes `[0,1]` and `[2,4]`. -/
+example : squeezeLoop [((1 : ℚ), 2)] 4 4 0 [] = [(0, 1), (2, 4)] := by decide +kernel
 
 /-! ## The 2-D instance (`model2d/transform.go`, `model2d/matrix.go`) — its own model `M3d/Model/Transform2.lean` -/
 
